@@ -51,13 +51,43 @@ Fixpoint s_find (r : kind -> str) (wc wj : bool) (l : list (N + kind)) (pos : na
       s_find r wc wj q (pos + length (text r tk)) fh' lb'
   end.
 
-(* document mode: every placeholder is replaced; a kind without placeholder goes before the first </head> /
-   the last </body> of the document; both insertions happen in one pass *)
+(* document mode, position form: every placeholder is replaced; a kind without placeholder goes before the first
+   </head> / the last </body> of the document; both insertions happen in one pass over the substituted text *)
 Definition spec_doc (js css : str) (t : str) : str :=
   let l := ph_tokens t in
   let r := repl js css in
   let '(fh, lb) := s_find r (negb (has KCss l)) (negb (has KJs l)) l 0 None None in
   weave (fun p => at_pos fh p css ++ at_pos lb p js) 0 (subst r l).
+
+(* ---------- THE specification: one left-to-right pass over the tokens of the document ---------- *)
+(* No offsets, no substituted text: the document is the list of its own symbols and placeholders.  A symbol is
+   copied, a placeholder is replaced by the tags of its kind; in front of the symbol at which the FIRST </head>
+   of the document starts (no </head> seen before) the CSS is emitted when CSS has no placeholder; in front of
+   the symbol at which the LAST </body> starts (none starts later) the JS is emitted when JS has no placeholder. *)
+Definition head_here (r : kind -> str) (l : list (N + kind)) : bool :=
+  match tag_here r l with Some Head => true | _ => false end.
+Definition body_here (r : kind -> str) (l : list (N + kind)) : bool :=
+  match tag_here r l with Some Body => true | _ => false end.
+
+Fixpoint later_body (r : kind -> str) (l : list (N + kind)) : bool :=
+  match l with
+  | [] => false
+  | _ :: q => body_here r l || later_body r q
+  end.
+
+Fixpoint one_pass (r : kind -> str) (css_c js_c : option str) (l : list (N + kind)) (seen_head : bool) : str :=
+  match l with
+  | [] => []
+  | tk :: q =>
+      (match css_c with Some css => if head_here r l && negb seen_head then css else [] | None => [] end)
+      ++ (match js_c with Some js => if body_here r l && negb (later_body r q) then js else [] | None => [] end)
+      ++ text r tk
+      ++ one_pass r css_c js_c q (seen_head || head_here r l)
+  end.
+
+Definition spec_doc1 (js css : str) (t : str) : str :=
+  let l := ph_tokens t in
+  one_pass (repl js css) (if has KCss l then None else Some css) (if has KJs l then None else Some js) l false.
 
 Definition spec_render (c : cfg) (ty : rtype) (d : str) : res str :=
   let parts := harvest d in
@@ -67,19 +97,9 @@ Definition spec_render (c : cfg) (ty : rtype) (d : str) : res str :=
     let '(js, css) := deps c ty parts in
     let t := erase_markers d in
     match ty with
-    | Document => ROk (spec_doc js css t)
-    | Fragment => ROk (erase_ph t ++ js)
+    | Document => ROk (spec_doc1 js css t)
+    | Fragment => ROk (erase_ph t ++ js)       (* placeholders removed, JS appended at the end *)
     end.
-
-(* ---------- the guard of the placement theorem ---------- *)
-(* An inserted block is opaque for the end-tag search: it is empty, or it starts with '<', ends with '>' and
-   no end tag is recognised anywhere inside it.  (Negation = trigger class c08-endtag-in-inserted-tags.) *)
-Definition tag_okb (r : str) : bool :=
-  match r with
-  | [] => true
-  | c :: _ => N.eqb c LT && N.eqb (last r 0%N) GT
-              && forallb (fun j => negb (is_some (match_endtag (skipn j r)))) (seq 0 (length r))
-  end.
 
 (* the search without the finditer skipping: every position is tried *)
 Fixpoint find_ns (wc wj : bool) (s : str) (pos : nat) (fh lb : option nat) : option nat * option nat :=
@@ -90,8 +110,8 @@ Fixpoint find_ns (wc wj : bool) (s : str) (pos : nat) (fh lb : option nat) : opt
       find_ns wc wj s' (S pos) fh' lb'
   end.
 
-(* the offset arithmetic before fix fa2cce9 (index_offset added unconditionally) - kept to show that the
-   placement theorem is sensitive to exactly that defect *)
+(* ---------- the two repaired defects, kept as definitions so that theorems can show the sensitivity ---------- *)
+(* the offset arithmetic before fix fa2cce9 (index_offset added unconditionally) *)
 Definition place_m_old (t : str) (css_c js_c : option str) (fh lb : option nat) : option str :=
   let '(u, off, modified) :=
     match css_c, fh with
@@ -102,3 +122,15 @@ Definition place_m_old (t : str) (css_c js_c : option str) (fh lb : option nat) 
   | Some js, Some j => Some (insert_at (j + off) js u)
   | _, _ => if modified then Some u else None
   end.
+
+(* document mode before fix b234f8a: the end tags were searched in the substituted text itself *)
+Definition render_doc_unmasked (js css : str) (t : str) : str :=
+  let pt := ph_tokens t in
+  let t1 := subst (repl js css) pt in
+  let fc := has KCss pt in
+  let fj := has KJs pt in
+  if fc && fj then t1
+  else match insert_default t1 t1 (if fj then None else Some js) (if fc then None else Some css) with
+       | Some x => x
+       | None => t1
+       end.
